@@ -463,3 +463,5 @@ func HarnessC01Request() {
 		vAssert(c3.URI.String() == path, "c01:request-transport-uri")
 	}
 }
+
+func vhURL(p string) *url.URL { return &url.URL{Path: p} }
